@@ -179,6 +179,52 @@ pub fn j_addmono(a: i128, b: i128, out: &mut Local) {
     }
 }
 
+const DERIVE: [&str; 8] = ["neg", "abs", "neg_neg", "add_zero", "sub_self_plus", "mul_1", "mul_neg1", "div_1"];
+/// operands produced by real operations (not by the constructor) must compare like their count: a value whose
+/// representation escaped the canonical form would compare wrongly against the same count built directly
+pub fn j_derived(op: usize, a: i128, out: &mut Local) {
+    let da = mk(a);
+    let args = vec![op.to_string(), enc(a)];
+    let r = guard(|| {
+        let d = match op {
+            0 => -da,
+            1 => da.abs(),
+            2 => -(-da),
+            3 => da + Duration::ZERO,
+            4 => (da - da) + da,
+            5 => da * 1,
+            6 => da * -1,
+            _ => da / 1,
+        };
+        let v = alpha(d);
+        if !(DMIN..=DMAX).contains(&v) {
+            return (v, None);
+        }
+        let same = mk(v);
+        let below = mk((v - 1).max(DMIN));
+        let above = mk((v + 1).min(DMAX));
+        (v, Some((d.cmp(&same), d == same, same == d, d.cmp(&below), d.cmp(&above), d < same, d > same, d.max(same).to_parts() == same.to_parts() || d.max(same).to_parts() == d.to_parts())))
+    });
+    match r {
+        Ok((v, Some((c, e1, e2, cb, ca, lt, gt, _)))) => {
+            use std::cmp::Ordering::*;
+            let want_b = if v == DMIN { Equal } else { Greater };
+            let want_a = if v == DMAX { Equal } else { Less };
+            if c != Equal || !e1 || !e2 || lt || gt || cb != want_b || ca != want_a {
+                out.viol("c03.derived", format!("result-of-{}-miscompares-with-same-count", DERIVE[op]), args, format!("cmp Equal, ==, > count-1, < count+1 for count {v}"), format!("cmp={c:?} eq={e1}/{e2} lt={lt} gt={gt} vs-below={cb:?} vs-above={ca:?}"));
+            } else {
+                let nt = a < 0 || a.rem_euclid(NPC) == 0;
+                out.ok(8, nt, op as u64 | ((a.rem_euclid(NPC) == 0) as u64) << 4 | ((a < 0) as u64) << 5);
+                if out.want_sample(nt) {
+                    out.sample("c03.derived", args, format!("{}({}) compares as count {v}", DERIVE[op], describe(a)), nt);
+                }
+            }
+        }
+        Ok((_, None)) => out.dc(1), // the operation itself produced an out-of-range count: owned by C01
+        Err(p) => out.viol("c03.derived", format!("panic:{}", p.class()), args, "no panic".into(), format!("{} {}", p.loc, p.msg)),
+    }
+}
+
 pub fn j_sort(variant: u64, sub: &[i128], out: &mut Local) {
     let n = sub.len();
     let mut v: Vec<Duration> = match variant {
@@ -225,11 +271,12 @@ fn sublattice() -> Vec<i128> {
 }
 
 pub fn run(rep: &mut Report) {
-    let q = rep.quick();
-    let dl = lattice::dl(if q { 8 } else { 64 }, !q);
+    let deep = !rep.quick();
+    let q = false;
+    let dl = lattice::dl(if deep { 256 } else { 64 }, !q);
     let n = dl.len() as u64;
     rep.bound("DL_size", n);
-    rep.rule = "all ordered pairs of the duration lattice under == != < <= > >= cmp partial_cmp min max; all triples of a zero-crossing / adjacent-century sub-lattice for transitivity; sort of the sub-lattice from 4 permutations; DL x 9 units; a+b>a on all pairs away from saturation. Oracle: the same relation on the i128 counts; `x == -x` within one century is a don't-care. Non-trivial = century fields differ by one, operands straddle zero, a+b = one century, or exact negations.".into();
+    rep.rule = "all ordered pairs of the duration lattice under == != < <= > >= cmp partial_cmp min max; all triples of a zero-crossing / adjacent-century sub-lattice for transitivity; sort of the sub-lattice from 4 permutations; DL x 9 units; a+b>a on all pairs away from saturation; operands *produced by real operations* (neg, abs, double neg, +0, (a-a)+a, *1, *-1, /1) compared with the same count built directly and with its two neighbours. Oracle: the same relation on the i128 counts; `x == -x` within one century is a don't-care. Non-trivial = century fields differ by one, operands straddle zero, a+b = one century, or exact negations.".into();
     rep.assumptions = vec!["Duration::from_parts/to_parts exact (C02)".into()];
     sweep(rep, "c03.pair", n * n, |i, out| j_pair(dl[(i / n) as usize], dl[(i % n) as usize], out));
     let sub = sublattice();
@@ -240,6 +287,7 @@ pub fn run(rep: &mut Report) {
     sweep(rep, "c03.sort", 4, |i, out| j_sort(i, &sub, out));
     sweep(rep, "c03.unit", n * 9, |i, out| j_unit(dl[(i / 9) as usize], UNITS[(i % 9) as usize], out));
     sweep(rep, "c03.addmono", n * n, |i, out| j_addmono(dl[(i / n) as usize], dl[(i % n) as usize], out));
+    sweep(rep, "c03.derived", n * 8, |i, out| j_derived((i % 8) as usize, dl[(i / 8) as usize], out));
 }
 
 pub fn replay(check: &str, a: &[String], out: &mut Local) -> bool {
@@ -248,6 +296,7 @@ pub fn replay(check: &str, a: &[String], out: &mut Local) -> bool {
         "c03.triple" => j_triple(p128(&a[0]), p128(&a[1]), p128(&a[2]), out),
         "c03.unit" => j_unit(p128(&a[0]), unit_from(&a[1]), out),
         "c03.addmono" => j_addmono(p128(&a[0]), p128(&a[1]), out),
+        "c03.derived" => j_derived(a[0].parse().unwrap(), p128(&a[1]), out),
         "c03.sort" => j_sort(pu64(&a[0]), &sublattice(), out),
         _ => return false,
     }
